@@ -1,9 +1,15 @@
 //! Verification model of `rand` as used by passage-protocol (R7): the system RNG yields the bytes the harness
 //! put into `SOURCE` (symbolic under Kani), or fails when `FAIL` is set.
 #![allow(static_mut_refs)]
-pub static mut SOURCE: [u8; 32] = [0; 32];
-pub static mut FAIL: bool = false;
-pub static mut FILL_CALLS: u32 = 0;
+macro_rules! global { ($name:ident, $set:ident, $get:ident, $t:ty, $init:expr) => {
+    static mut $name: $t = $init;
+    /// setter/getter live in the defining crate: Kani mis-handles writes to another crate's `static mut`
+    pub fn $set(v: $t) { unsafe { $name = v; } }
+    pub fn $get() -> $t { unsafe { $name } }
+} }
+global!(SOURCE, set_source, source, [u8; 32], [0; 32]);
+global!(FAIL, set_fail, fail, bool, false);
+global!(FILL_CALLS, set_fill_calls, fill_calls, u32, 0);
 pub trait TryRng {
     type Error;
     fn try_fill_bytes(&mut self, dst: &mut [u8]) -> Result<(), Self::Error>;
